@@ -180,7 +180,7 @@ func vf07CheckRaw(st *vfStats, t vfFataler, rec []byte, flags uint8, origin stri
 		if h != nil {
 			types = fmt.Sprint(h.ExtTypes())
 		}
-		vf07NT(st, "raw|" + vf07ErrClass(err) + "|" + types + "|" + fmt.Sprint(flags&7))
+		vf07NT(st, "raw|"+vf07ErrClass(err)+"|"+types+"|"+fmt.Sprint(flags&7))
 	}
 	if err != nil {
 		st.Class("raw-err: " + vf07ErrClass(err))
@@ -271,7 +271,7 @@ func vf07CheckSpecJSON(st *vfStats, t vfFataler, doc []byte, pristine bool, orig
 		c := vf07ErrClass(err)
 		st.Class("json-err: " + c)
 		if !strings.HasPrefix(err.Error(), "invalid character") && !strings.HasPrefix(err.Error(), "unexpected end") {
-			vf07NT(st, "json|" + c)
+			vf07NT(st, "json|"+c)
 		}
 		return
 	}
@@ -279,7 +279,7 @@ func vf07CheckSpecJSON(st *vfStats, t vfFataler, doc []byte, pristine bool, orig
 	for _, e := range spec.Extensions {
 		names = append(names, fmt.Sprintf("%T", e))
 	}
-	vf07NT(st, "json|ok|" + strings.Join(names, ","))
+	vf07NT(st, "json|ok|"+strings.Join(names, ","))
 	st.Class("json-ok")
 	r := vf07Apply(&spec, true, false)
 	switch {
@@ -383,12 +383,12 @@ func vf07CheckImportMap(st *vfStats, t vfFataler, m map[string][]byte, validMap 
 		c := vf07ErrClass(err)
 		st.Class("map-err: " + c)
 		if c != "cipher_suites is required" && c != "compression_methods is required" && c != "extensions is required" {
-			vf07NT(st, "map|" + c + "|" + fmt.Sprintf("%x", m["extensions"]))
+			vf07NT(st, "map|"+c+"|"+fmt.Sprintf("%x", m["extensions"]))
 		}
 		return
 	}
 	st.Class("map-ok")
-	vf07NT(st, "map|ok|" + fmt.Sprintf("%x", m["extensions"]))
+	vf07NT(st, "map|ok|"+fmt.Sprintf("%x", m["extensions"]))
 	r := vf07Apply(&spec, true, false)
 	switch {
 	case r.Panic != nil && validMap:
@@ -425,7 +425,7 @@ func vf07CheckImportJSON(st *vfStats, t vfFataler, doc []byte, origin string) {
 	}
 	st.Class("importjson: " + vf07ErrClass(err))
 	if jerr == nil {
-		vf07NT(st, "ijson|" + vf07ErrClass(err) + "|" + fmt.Sprintf("%x", m["extensions"]))
+		vf07NT(st, "ijson|"+vf07ErrClass(err)+"|"+fmt.Sprintf("%x", m["extensions"]))
 	}
 }
 
